@@ -229,6 +229,8 @@ package eni
 //@ pure func flavorSum(s []networkv1beta1.Flavor) int = ite(len(s) > 0, s[0].Count, 0) + ite(len(s) > 1, s[1].Count, 0) + ite(len(s) > 2, s[2].Count, 0)
 //@ # the list is complete when the standard secondary entry (always written last) has been appended
 //@ guard store NodeSpec.Flavor in Reconcile: !(len(value) > 0 && value[len(value) - 1].NetworkInterfaceType == "Secondary" && value[len(value) - 1].NetworkInterfaceTrafficMode == "Standard") || (len(value) <= 3 && flavorSum(value) == target.Spec.NodeCap.Adapters - 1)
+//@ # ... the same on the EFLO / LingJun path (one standard secondary entry)
+//@ guard store NodeSpec.Flavor in handleEFLO: !(len(value) > 0 && value[len(value) - 1].NetworkInterfaceType == "Secondary" && value[len(value) - 1].NetworkInterfaceTrafficMode == "Standard") || (len(value) <= 3 && flavorSum(value) == target.Spec.NodeCap.Adapters - 1)
 
 //@ for C04
 //@ # ---- handing addresses back never depends on the caller still being there: Manager.Release fails only if a backend's
